@@ -9,6 +9,7 @@ package scen
 import (
 	"encoding/json"
 	"fmt"
+	"io"
 	"net/http"
 	"net/http/httptest"
 	"net/url"
@@ -97,6 +98,7 @@ func c15Scenario(x *mc.X) *mc.Outcome {
 	query := c15Queries[x.Choose(len(c15Queries), "query")]
 	reqX := x.Bool("x required")
 	ptrRoot := x.Bool("schema is Ptr(Struct)")
+	stream := x.Bool("body of unknown length")
 	if _, ok := c15Skels[reqX]; !ok {
 		c15Skels[reqX] = c15Skel(reqX)
 	}
@@ -116,7 +118,11 @@ func c15Scenario(x *mc.X) *mc.Outcome {
 	}
 	mkReq := func() *http.Request {
 		target := "/"
-		r := httptest.NewRequest(method, target, strings.NewReader(body.text))
+		var rd io.Reader = strings.NewReader(body.text)
+		if stream {
+			rd = io.NopCloser(rd) // net/http cannot know the length: ContentLength == -1 (chunked upload)
+		}
+		r := httptest.NewRequest(method, target, rd)
 		r.URL.RawQuery = query.raw
 		if ct.set {
 			r.Header.Set("Content-Type", ct.value)
@@ -132,7 +138,7 @@ func c15Scenario(x *mc.X) *mc.Outcome {
 	installOrderRecorder(x, zh.OrderRev, &orders)
 	real := RunParse(schema, zhttp.Request(mkReq()), dest)
 	zh.Reset()
-	desc := fmt.Sprintf("%s Content-Type=%q body[%s]=%q query[%s]=%q x.required=%v schema-is-pointer=%v", method, ct.value, body.name, body.text, query.name, query.raw, reqX, ptrRoot)
+	desc := fmt.Sprintf("%s Content-Type=%q body[%s]=%q query[%s]=%q x.required=%v schema-is-pointer=%v unknown-length=%v", method, ct.value, body.name, clip(body.text), query.name, query.raw, reqX, ptrRoot, stream)
 	out := &mc.Outcome{Traces: 1, Nontrivial: true}
 	out.Sample = map[string]any{"request": desc, "issues": real.IssueStrings(), "dest": canonNoTypes(dest.Elem())}
 	fail := func(key, what, exp, got string) *mc.Outcome {
@@ -218,7 +224,7 @@ func c15Scenario(x *mc.X) *mc.Outcome {
 func init() {
 	Register(&Prop{
 		ID:    "C15",
-		Rule:  "full product: one execution = one real http.Request: method {GET, HEAD, POST, PUT, PATCH, DELETE, OPTIONS} × Content-Type {absent, empty, json, json with charset (two spellings), form, form with charset, multipart, text/plain, unknown; + 3 spellings outside the statement run for panic-freedom only} × body {JSON object, {}, truncated, array, null, number, string, empty, form, malformed escape, semicolon form, single-valued list} × query {none, single, repeated, m[] once, m[] twice, malformed} × {x optional, x required} × {Struct schema, Ptr(Struct) schema}, each source carrying its own sentinel keys and values; every case is non-trivial; distinct = distinct (expected source, media type, decode issue, issues)",
+		Rule:  "full product: one execution = one real http.Request: method {GET, HEAD, POST, PUT, PATCH, DELETE, OPTIONS} × Content-Type {absent, empty, json, json with charset (two spellings), form, form with charset, multipart, text/plain, unknown; + 3 spellings outside the statement run for panic-freedom only} × body {JSON object, {}, truncated, array, null, number, string, empty, form, malformed escape, semicolon form, single-valued list} × query {none, single, repeated, m[] once, m[] twice, malformed} × {x optional, x required} × {Struct schema, Ptr(Struct) schema} × {body with known length, body of unknown length}, each source carrying its own sentinel keys and values; every case is non-trivial; distinct = distinct (expected source, media type, decode issue, issues)",
 		Floor: 30,
 		Bound: func(tier string) string { return "full product (both tiers), identity and reversed field visit orders" },
 		Assumptions: []string{
